@@ -44,7 +44,7 @@ XPATHS = [x if x.rstrip()[-1].isalpha() else x + "Base" for x in XPATHS]
 PATTERNS = ['(LeafA @v="1")', "(Mixed @items=[(LeafA) -> a *])", "(* @child=(LeafA) -> c)", "(Uni @one -> o)",
             "(LeafA | LeafB @v -> val)", "(Mixed @items=[])", "(Mixed @child=None)", '(Strs @a="a" @b -> b)',
             "(Seq @pair=[(LeafA) (LeafB)])", "(InhMixed @more=[(*) -> first *])", "(* @nope)"]
-FAMILIES_CREATING = {"duplicate", "replace", "dc_replace", "transform", "ser", "ser_drop"}
+FAMILIES_CREATING = {"duplicate", "replace", "dc_replace", "transform", "ser", "ser_drop", "suffix_payload", "suffix_twins"}
 
 
 class Machine:
@@ -334,6 +334,24 @@ class Machine:
                 require(False, "assignment-did-not-raise", f"{type(x).__name__}.brand_new_attribute")
             except (dataclasses.FrozenInstanceError, AttributeError, TypeError):
                 pass
+        elif kind == "suffix_payload":
+            # a payload written elsewhere (another session): its id carries a collision suffix this
+            # process has not handed out itself; the node read from it is an existing node like any other
+            leaf = M.cls("LeafA")(v=500 + o[1])
+            payload = leaf.as_dict()
+            leaf.detach_self()
+            del leaf
+            payload["id"] = f"{payload['id'].split('_')[0]}_{1 + o[2] % 3}"
+            res = ASTNode.as_obj(payload) if o[2] % 2 else M.cls("LeafA").as_obj(payload)
+            self.suffix_v = 500 + o[1]
+            new_roots.append(res)
+        elif kind == "suffix_twins":
+            v = getattr(self, "suffix_v", None)
+            if v is None:
+                return
+            for _ in range(2 + o[1] % 3):
+                new_roots.append(M.cls("LeafA")(v=v))
+            self.lab.tag("twins-of-a-node-read-with-a-foreign-suffix")
         elif kind == "digest":
             # the digest length is a process-wide setting a user may change between two parser runs:
             # nodes made earlier keep the ids and content ids they were given
@@ -389,7 +407,8 @@ def st_program(ctx: Ctx):
     )
     macro = st.tuples(st.sampled_from(["detach_self", "detach_self", "detach"]), s, st.one_of(s, s.map(lambda v: v + 1000)), follow).map(
         lambda t: [[t[0], t[1], t[2]], list(t[3])])
-    step = st.one_of(op, op, op, op, op, macro)
+    suffix = st.tuples(small, small, small).map(lambda t: [["suffix_payload", t[0], t[1]], ["suffix_twins", t[2]]])
+    step = st.one_of(op, op, op, op, op, macro, suffix)
     return st.fixed_dictionaries(
         {
             "trees": st.lists(st.one_of(g.inner_tree(), g.tree()), min_size=2, max_size=2),
